@@ -224,6 +224,37 @@ pub fn check_float<I: FloatInner>(vt: &'static Vt<I>, ctx: &Ctx) -> DeclReport {
     let strat = if vt.arbitrary.is_some() { prop_oneof![bits_strat, arb_strat].boxed() } else { bits_strat.boxed() };
     drive(ctx, &info, &mut rep, attempts, Some(strat), ctx.n_random(2000, 200_000), &eval_a);
 
+    // Default called repeatedly (declarations whose default expression changes from call to call): a call whose
+    // expression the constructor rejects must not hand out a value
+    if let (Some(h), true) = (vt.default_history, ctx.case.is_none() || ctx.case.as_ref().is_some_and(|c| c.get("default_history").is_some())) {
+        let mut prefix: Vec<String> = vec![];
+        for (label, ctor_ok, got) in h() {
+            prefix.push(label.clone());
+            rep.evaluations += 1;
+            rep.nontrivial += 1;
+            rep.class("default-history-step");
+            if !ctor_ok && got.is_some() {
+                let mut w = Default::default();
+                rep.viol(
+                    Viol {
+                        prop: "C12".into(),
+                        decl_id: vt.id.into(),
+                        type_name: vt.type_name.into(),
+                        decl: vt.decl.into(),
+                        signature: sig("value-the-constructor-rejects-obtained", "Default-history"),
+                        case: json!({"default_history": prefix}),
+                        expected: "panic (the constructor rejects this call's default expression)".into(),
+                        actual: format!("a value, at {label}"),
+                        shrunk: "none".into(),
+                    },
+                    0,
+                    &mut w,
+                );
+                break;
+            }
+        }
+    }
+
     // thorough tier: ALL 2^32 bit patterns through try_new / TryFrom for f32 declarations
     if ctx.tier == Tier::Thorough && ctx.case.is_none() && I::BYTES == 4 {
         let mut bad: Option<u64> = None;
